@@ -14,6 +14,7 @@
 #include <jsoncons_ext/jsonschema/jsonschema.hpp>
 #include <jsoncons_ext/jsonpointer/jsonpointer.hpp>
 #include <jsoncons_ext/cbor/cbor.hpp>
+#include <jsoncons_ext/msgpack/msgpack.hpp>
 #include <pthread.h>
 #include <memory>
 
@@ -32,20 +33,53 @@ struct Artefact {
     std::unique_ptr<const ojson> odoc;
 };
 
+// Value kinds that JSON text never produces (they come from the binary decoders or from construction): byte strings
+// with a tag or an extension tag, big integers / big decimals kept as tagged long strings, half floats, tagged text,
+// and empty-object / short-string / long-string storage kinds next to each other.
+template <class J> static void enrich(J& j, uint64_t variety) {
+    std::vector<uint8_t> bytes; for (unsigned i = 0; i < 24 + variety % 40; ++i) bytes.push_back((uint8_t)(i * 7 + variety));
+    std::vector<J> extra;
+    extra.emplace_back(byte_string_arg, bytes, semantic_tag::base64);
+    extra.emplace_back(byte_string_arg, bytes, (uint64_t)(42 + variety % 3));
+    extra.emplace_back(byte_string_arg, std::vector<uint8_t>{1, 2, 3}, semantic_tag::base16);
+    extra.emplace_back("123456789012345678901234567890123456789", semantic_tag::bigint);
+    extra.emplace_back("-18446744073709551617.5e-3", semantic_tag::bigdec);
+    extra.emplace_back(half_arg, (uint16_t)0x3c00);
+    extra.emplace_back("2026-10-04T12:00:00Z and some more characters", semantic_tag::datetime);
+    extra.emplace_back(json_object_arg);
+    { J a(json_array_arg); a.push_back(J(byte_string_arg, bytes)); a.push_back(J::null()); a.push_back(1.5); extra.push_back(std::move(a)); }
+    if (j.is_object()) { int k = 0; for (auto& e : extra) j.try_emplace("rich" + std::to_string(k++), e); }
+    else if (j.is_array()) { for (auto& e : extra) j.push_back(e); }
+    else { J a(json_array_arg); a.push_back(j); for (auto& e : extra) a.push_back(e); j = std::move(a); }
+    // one level down as well, so that copies of sub-documents meet them
+    if (j.is_object()) { for (auto& kv : j.object_range()) if (kv.value().is_array() && kv.key().compare(0, 4, "rich") != 0) { kv.value().push_back(extra[0]); kv.value().push_back(extra[3]); break; } }
+}
+
+static std::unique_ptr<const json> build_input(const MVal& i, bool rich, uint64_t variety) {
+    std::unique_ptr<json> j(new json(json::parse(i.dump())));
+    if (rich) enrich(*j, variety);
+    return std::unique_ptr<const json>(j.release());
+}
+
 static std::unique_ptr<Artefact> build(const MVal& a) {
     std::unique_ptr<Artefact> r(new Artefact);
     r->kind = a.gets("kind");
     if (r->kind == "schema") r->schema.reset(new jsonschema::json_schema<json>(jsonschema::make_json_schema(json::parse(plan_text(a, "schema")))));
     else if (r->kind == "jsonpath") r->jpath.reset(new jsonpath::jsonpath_expression<json>(jsonpath::make_expression<json>(a.gets("expr"))));
     else if (r->kind == "jmespath") r->jmes.reset(new jmespath::jmespath_expression<json>(jmespath::make_expression<json>(a.gets("expr"))));
-    else if (r->kind == "doc") { r->doc.reset(new json(json::parse(plan_text(a, "doc")))); r->odoc.reset(new ojson(ojson::parse(plan_text(a, "doc")))); }
+    else if (r->kind == "doc") {
+        json d = json::parse(plan_text(a, "doc")); ojson od = ojson::parse(plan_text(a, "doc"));
+        if (a.getb("rich")) { enrich(d, a.getu("variety")); enrich(od, a.getu("variety")); }
+        r->doc.reset(new json(std::move(d))); r->odoc.reset(new ojson(std::move(od)));
+    }
     return r;
 }
 
 static const char* const schema_ops[] = {"is_valid", "validate_report", "validate_patch", "walk"};
 static const char* const jsonpath_ops[] = {"evaluate", "evaluate_path", "evaluate_nodups_sort", "callback", "select_paths"};
 static const char* const jmespath_ops[] = {"evaluate"};
-static const char* const doc_ops[] = {"dump", "dump_pretty", "equal", "less", "lookup", "copy", "encode_cbor", "iterate", "at_missing", "pointer_get", "odump", "ocopy_equal", "as_string"};
+static const char* const doc_ops[] = {"dump", "dump_pretty", "equal", "less", "lookup", "copy", "encode_cbor", "iterate", "at_missing", "pointer_get", "odump", "ocopy_equal", "as_string",
+                                      "copy_members", "copy_assign", "as_bytes", "encode_msgpack", "copy_input", "odump_pretty"};
 
 enum Kind { K_NONE, K_SCHEMA, K_JSONPATH, K_JMESPATH, K_DUMP, K_COMPARE, K_LOOKUP, K_COPY, K_ENCODE, K_THROW };
 
@@ -90,6 +124,25 @@ static std::string run_op(const Artefact& a, const std::string& op, const json& 
                 return log;
             }
             if (op == "copy") { sched_set_kind(K_COPY); json c(d); return text(c); }
+            if (op == "copy_members") {       // copies of sub-values, created and destroyed one by one, then all together
+                sched_set_kind(K_COPY);
+                std::string log; std::vector<json> keep;
+                if (d.is_object()) for (const auto& kv : d.object_range()) { json c(kv.value()); log += kv.key(); log += "="; log += text(c); log += ";"; if (keep.size() < 12) keep.push_back(kv.value()); }
+                else if (d.is_array()) for (const auto& e : d.array_range()) { json c(e); log += text(c); log += ";"; if (keep.size() < 12) keep.push_back(e); }
+                keep.clear();
+                return log;
+            }
+            if (op == "copy_assign") { sched_set_kind(K_COPY); json c; c = d; json c2(c); c = in; ojson oc; oc = od; return text(c2) + text(c) + text(oc); }
+            if (op == "copy_input") { sched_set_kind(K_COPY); json c(in); json e(json_array_arg); e.push_back(in); e.push_back(d); return text(c) + text(e); }
+            if (op == "as_bytes") {
+                sched_set_kind(K_LOOKUP);
+                std::string log;
+                auto one = [&](const json& v) { if (v.is_byte_string()) { auto bv = v.as_byte_string_view(); log += to_hex(std::string(bv.begin(), bv.end())); log += "/"; log += std::to_string(v.ext_tag()); log += ";"; auto bs = v.as<std::vector<uint8_t>>(); log += std::to_string(bs.size()); } else if (v.is_bignum()) { log += v.as<std::string>(); log += ";"; } };
+                if (d.is_object()) for (const auto& kv : d.object_range()) one(kv.value()); else if (d.is_array()) for (const auto& e : d.array_range()) one(e);
+                return log;
+            }
+            if (op == "encode_msgpack") { sched_set_kind(K_ENCODE); std::vector<uint8_t> b; msgpack::encode_msgpack(d, b); return to_hex(std::string(b.begin(), b.end())); }
+            if (op == "odump_pretty") { sched_set_kind(K_DUMP); std::string s; od.dump_pretty(s); return s; }
             if (op == "ocopy_equal") { sched_set_kind(K_COPY); ojson c(od); return (c == od) ? "eq" : "ne"; }
             if (op == "encode_cbor") { sched_set_kind(K_ENCODE); std::vector<uint8_t> b; cbor::encode_cbor(d, b); return to_hex(std::string(b.begin(), b.end())); }
             if (op == "iterate") {
@@ -149,7 +202,7 @@ MVal generate(const std::string&, uint64_t seed, uint64_t idx) {
                 const auto& ex = g.geta("exprs"); a.set("expr", ex[r.below(ex.size())]);
                 pref[i] = ins.a.size(); ins.push(*g.find("given"));
             } else a.set("expr", MVal::str(r.pick(corpus::jmespaths)));
-        } else { a.set("kind", MVal::str("doc")); a.set("doc", corpus::store_doc(r)); }
+        } else { a.set("kind", MVal::str("doc")); a.set("doc", corpus::store_doc(r)); if (r.chance(3, 5)) { a.set("rich", MVal::boolean(true)); a.set("variety", MVal::uinteger(r.below(64))); } }
         arts.push(a);
     }
     plan.set("artefacts", arts);
@@ -160,6 +213,10 @@ MVal generate(const std::string&, uint64_t seed, uint64_t idx) {
     }
     plan.set("inputs", ins);
     size_t ni = ins.a.size();
+    // some shared inputs carry the non-JSON value kinds too (query results then copy them); inputs of schema groups stay pure JSON
+    MVal rich_in = MVal::arr();
+    for (size_t i = 0; i < ni; ++i) rich_in.push(MVal::boolean(i >= ni - extra && r.chance(1, 2)));
+    plan.set("rich_inputs", rich_in);
     size_t nt = 2 + r.below(r.chance(1, 4) ? 15 : 5);
     MVal tasks = MVal::arr();
     for (size_t t = 0; t < nt; ++t) {
@@ -207,13 +264,13 @@ static void* task_main(void* p) {
 
 Result execute(MVal& plan, Stats& st) {
     Result res;
-    const auto& arts_m = plan.geta("artefacts"); const auto& ins_m = plan.geta("inputs"); const auto& tasks_m = plan.geta("tasks");
+    const auto& arts_m = plan.geta("artefacts"); const auto& ins_m = plan.geta("inputs"); const auto& tasks_m = plan.geta("tasks"); const auto& rich_m = plan.geta("rich_inputs");
     if (arts_m.empty() || ins_m.empty() || tasks_m.empty() || tasks_m.size() > 30) { res.cls = "invalid-plan"; return res; }
     std::vector<std::unique_ptr<Artefact>> arts, ref_arts;
     std::vector<std::unique_ptr<const json>> inputs, ref_inputs;
     try {
         for (auto& a : arts_m) { arts.push_back(build(a)); }
-        for (auto& i : ins_m) inputs.emplace_back(new json(json::parse(i.dump())));
+        for (size_t k = 0; k < ins_m.size(); ++k) inputs.push_back(build_input(ins_m[k], k < rich_m.size() && rich_m[k].k == MVal::Bool && rich_m[k].b, k));
     } catch (const std::exception& e) { res.cls = "invalid-plan"; res.detail = e.what(); return res; }
     std::vector<std::string> docs_before;
     for (auto& a : arts) if (a->doc) docs_before.push_back(text(*a->doc) + text(*a->odoc));
@@ -244,7 +301,7 @@ Result execute(MVal& plan, Stats& st) {
 
     // Oracle 2: every result equals the single-threaded result computed AFTERWARDS on separately built artefacts.
     for (auto& a : arts_m) ref_arts.push_back(build(a));
-    for (auto& i : ins_m) ref_inputs.emplace_back(new json(json::parse(i.dump())));
+    for (size_t k = 0; k < ins_m.size(); ++k) ref_inputs.push_back(build_input(ins_m[k], k < rich_m.size() && rich_m[k].k == MVal::Bool && rich_m[k].b, k));
     uint64_t h = sched_trace_hash();
     for (size_t t = 0; t < nt && res.ok; ++t) {
         for (size_t i = 0; i < ctx[t].ops.size(); ++i) {
